@@ -61,7 +61,20 @@ func main() {
 	var extra map[string]any
 	if *extraFile != "" {
 		if b, err := os.ReadFile(*extraFile); err == nil {
-			extra = map[string]any{"config_runs": strings.Split(strings.TrimSpace(string(b)), "\n")}
+			cfgs, muts := []string{}, []string{}
+			killed := 0
+			for _, l := range strings.Split(strings.TrimSpace(string(b)), "\n") {
+				if strings.HasPrefix(l, "mutant: ") {
+					muts = append(muts, strings.TrimPrefix(l, "mutant: "))
+					if strings.Contains(l, ": killed") {
+						killed++
+					}
+				} else if l != "" {
+					cfgs = append(cfgs, l)
+				}
+			}
+			extra = map[string]any{"config_runs": cfgs, "mutants": muts, "mutants_killed": killed, "mutants_total": len(muts),
+				"mutants_note": "seeded single-site defects (/verif/mutants) applied to scratch copies; reported only, never part of the exit status"}
 		}
 	}
 	os.Exit(rep.Finish(p, *verif, seed, !*noEvidence, extra))
